@@ -12,4 +12,20 @@ TEXT = {
         "note": "Trusted: the harness's own closest-point reference (feature brute force) and the rounding-error model of the tolerances "
                 "(32 eps (|coordinates|+size), conditioning term size^2/area). Degenerate triangles (area < 1e-7 L^2) are outside the domain.",
     },
+    "C01": {
+        "technique": "rapidcheck stateful (history) property testing with an independent topological/orientation oracle after every command",
+        "level": "Generated histories of displacements, refinement passes, single split/collapse/swap operations and compactions on "
+                 "generated closed meshes; every clause of the statement (closedness, opposite traversal, Euler characteristic, live "
+                 "references, bookkeeping vs recomputation, cached normal vs winding, outwardness) is recomputed from the triangle list "
+                 "alone after each command under ASan/UBSan/_GLIBCXX_ASSERTIONS. Thousands of distinct non-trivial histories per quick run; "
+                 "it found three genuine defects in the pinned tree (now fixed). Exploration, not proof.",
+        "note": "Trusted: the harness oracle (geom.hpp/celltools.hpp). Embedding (self-intersection) is not part of the statement and is not checked.",
+    },
+    "C02": {
+        "technique": "rapidcheck property-based testing; differential against closed-form energy gradients (finite-difference cross-check), conservation invariants, metamorphic rigid-motion covariance",
+        "level": "Each force term is isolated and compared node by node with P dV/dx and -sum tau dA/dx computed independently in long double; "
+                 "net force and net torque are checked per term and for the sum; the covariance clause re-runs the real code on the rigidly "
+                 "moved mesh. Exploration over thousands of generated meshes/parameter sets; found the bending-normal defect (fixed).",
+        "note": "Trusted: the harness gradients and the stated rounding-error model. Terms are reached through the cell_tester friend name declared by the headers.",
+    },
 }
